@@ -1,8 +1,8 @@
 """frame contracts of the public functions named in the properties whose contracts do not carry their own frame section.
 
-Every function listed here has the contract `modifies nothing` (or `modifies top(self)` for the calendar methods, which cache the holiday
-table on first use): no caller-owned argument, and no object reachable from one, is written to, and nothing the function keeps
-(module globals, memo tables) is handed out for the caller to alter.  The ownership checker of pyvc/own.py re-derives the effects of each body
+Every function listed here has the contract `modifies nothing of the caller's` (plus `top(self)` for the calendar methods, which cache the holiday
+table on first use): no caller-owned argument, and no object reachable from one, is written to; module-level state (a memo table, a registry) may be
+written, but nothing kept there is handed out for the caller to alter where a result level is declared.  The ownership checker of pyvc/own.py re-derives the effects of each body
 from /repo's current source on every run; each store / in-place method / augmented assignment / call site is one obligation.
 
 Why this belongs to the properties: each of them quantifies over repeated use of the same values (a list of methods given to df_reindex twice,
@@ -15,17 +15,20 @@ bi_merge, df_concat, nona, perdictable join); the bounded runner compares their 
 from . import own
 
 P = '_pandas'
-SELF = ['top(self)']
+# every clause allows writes to module-level state (a memo table, a registry): what a function keeps for itself does not touch the caller's values, and
+# what it hands out of such state is covered by the declared result levels below
+NOTHING = {own.EXT: own.ANY}
+SELF = {'self': own.TOP, own.EXT: own.ANY}
 PUBLIC_FUNCS = {
-    'C03': [(P, f, {}) for f in ('df_reindex', '_df_reindex', 'df_index', '_df_index', 'df_sync', 'df_columns')],
-    'C04': [('_dates', f, {}) for f in ('dt', 'ymd', 'dt2str')],
+    'C03': [(P, f, NOTHING) for f in ('df_reindex', '_df_reindex', 'df_index', '_df_index', 'df_sync', 'df_columns')],
+    'C04': [('_dates', f, NOTHING) for f in ('dt', 'ymd', 'dt2str')],
     'C05': [('_drange', 'Calendar.' + f, SELF) for f in ('adjust', 'add', 'bdays', 'drange', 'is_bday', 'is_trading')],
-    'C07': [('_sort', f, {}) for f in ('cmp', 'sort', 'cmparr')],
-    'C08': [(P, f, {}) for f in ('add_', 'mul_', 'sub_', 'div_', 'pow_', 'min_', 'max_', 'df_sum', 'df_mean', 'df_count', 'df_std')] + [('_reducer', 'reducer', {})],
-    'C09': [('_dates', 'dt_bump', {})],
-    'C10': [('_drange', 'drange', {})],
-    'C14': [('_eq', 'eq', {}), ('_eq', 'in_', {})],
-    'C19': [('_as_list', 'as_list', {}), ('_as_list', 'as_tuple', {}), ('_tree', 'tree_to_table', {})],
+    'C07': [('_sort', f, NOTHING) for f in ('cmp', 'sort', 'cmparr')],
+    'C08': [(P, f, NOTHING) for f in ('add_', 'mul_', 'sub_', 'div_', 'pow_', 'min_', 'max_', 'df_sum', 'df_mean', 'df_count', 'df_std')] + [('_reducer', 'reducer', NOTHING)],
+    'C09': [('_dates', 'dt_bump', NOTHING)],
+    'C10': [('_drange', 'drange', NOTHING)],
+    'C14': [('_eq', 'eq', NOTHING), ('_eq', 'in_', NOTHING)],
+    'C19': [('_as_list', 'as_list', NOTHING), ('_as_list', 'as_tuple', NOTHING), ('_tree', 'tree_to_table', NOTHING)],
 }
 NEVER = ['wrapper', 'Path']
 # declared result levels: the schedule functions return a list built by the call itself (a memoised helper's list handed straight out would be
